@@ -50,6 +50,9 @@ var kindOf = map[string]string{
 
 var hangAfter = 20 * time.Second
 
+// nControls is the number of independent sequential control replays made when the determined part differs.
+var nControls = 6
+
 // ---------------------------------------------------------------------------------------------
 
 type runner struct {
@@ -82,13 +85,13 @@ func hash(s string) string {
 // coarse: what is determined by the set of requests alone whenever a bulk re-allocation took part (which CPUs and
 // pools a container gets then depends on map iteration order, sequentially too)
 func coarse(st tr.M) tr.M {
-	out := tr.M{"pods": st["pods"], "pend": st["pend"]}
+	out := tr.M{"pods": st["pods"]}
 	cs := tr.M{}
 	if m, ok := st["ctr"].(tr.M); ok {
 		for id, v := range m {
 			c, _ := v.(tr.M)
 			cs[id] = tr.M{"pod": c["pod"], "st": c["st"], "qos": c["qos"], "cpureq": c["cpureq"], "cpulim": c["cpulim"],
-				"memreq_u": c["memreq_u"], "memlim_u": c["memlim_u"], "pending": c["pending"]}
+				"memreq_u": c["memreq_u"], "memlim_u": c["memlim_u"]}
 		}
 	}
 	out["ctr"] = cs
@@ -348,17 +351,21 @@ func (x *runner) session(si int, s Session) (stop bool) {
 	x.out.Emit(tr.M{"ev": "session", "s": si, "world": s.World.Name, "policy": s.World.Policy, "race": RaceBuild, "rounds": len(s.Rounds)})
 	hidx := x.nl2
 	x.nl2++
+	var resetState interface{}
 	if x.l2out != nil {
-		x.l2out.Emit(w.ResetLine(hidx))
+		rl := w.ResetLine(hidx)
+		resetState = rl["st"]
+		x.l2out.Emit(rl)
 	}
-	history := []l2.Op{} // the serialized history of the whole session (for the control replay)
+	history := []l2.Op{}  // the serialized history of the whole session (for the control replay)
+	sessLines := []tr.M{} // the L2 lines of the session so far (for the sequential baseline of a coarse round)
 	k := 0
 	for ri, rd := range s.Rounds {
 		reqs, hung, stacks := runRound(w, rd)
 		rec := tr.M{"ev": "round", "s": si, "r": ri, "gmp": rd.GMP, "race": RaceBuild, "ngo": len(rd.Procs), "bulk": rd.Bulk, "hang": hung}
 		rr := []tr.M{}
 		for _, r := range reqs {
-			if !r.Skipped {
+			if !r.Skipped && len(r.Events) > 0 { // (after a hang: requests that were never issued have no events)
 				rr = append(rr, reqRecord(r))
 			}
 		}
@@ -387,6 +394,7 @@ func (x *runner) session(si int, s Session) (stop bool) {
 		// of a request = the projection made under the lock right before it released it; the round's last line carries
 		// the state projected after all goroutines were joined)
 		var last tr.M
+		roundStart := len(sessLines)
 		for i, r := range order {
 			st := r.St
 			if st == nil {
@@ -396,7 +404,9 @@ func (x *runner) session(si int, s Session) (stop bool) {
 				st = end
 			}
 			if x.l2out != nil {
-				x.l2out.Emit(w.Line(r.Op, r.Reply, r.Pushed, hidx, k, st))
+				ln := w.Line(r.Op, r.Reply, r.Pushed, hidx, k, st)
+				x.l2out.Emit(ln)
+				sessLines = append(sessLines, ln)
 			}
 			k++
 			if st != nil {
@@ -411,12 +421,18 @@ func (x *runner) session(si int, s Session) (stop bool) {
 		if twin != nil && end != nil {
 			sameReplies, firstReply := true, ""
 			twinHang := false
+			twinLines := []tr.M{}
+			flagsConc, flagsSeq := []interface{}{}, []interface{}{}
+			var firstDiff tr.M
 			for _, r := range order {
 				line, err := twin.Step(r.Op, hidx, 0)
 				if err == l2.ErrHang {
 					twinHang = true
 					break
 				}
+				twinLines = append(twinLines, line)
+				flagsConc = append(flagsConc, []interface{}{r.Reply.Err != nil, r.Reply.Panic != nil, r.Reply.Adj != nil})
+				flagsSeq = append(flagsSeq, []interface{}{line["err"], line["panic"], line["hasadj"]})
 				a := normReply(l2.ReplyView(r.Reply))
 				b := normReply(tr.M{"err": line["err"], "panic": line["panic"], "adj": line["adj"], "hasadj": line["hasadj"], "upd": line["upd"]})
 				if a != b && sameReplies {
@@ -426,59 +442,135 @@ func (x *runner) session(si int, s Session) (stop bool) {
 						firstReply = firstReply[:600] + "..."
 					}
 				}
+				// step by step: the FIRST request after which the two runs differ.  Up to it they went through identical full
+				// states, so that request alone is responsible for the difference.
+				if firstDiff == nil {
+					var sa, sb tr.M
+					sa = r.St
+					if x, ok := line["st"].(tr.M); ok {
+						sb = x
+					}
+					stepFull := a == b
+					stepDet := fmt.Sprint(flagsConc[len(flagsConc)-1]) == fmt.Sprint(flagsSeq[len(flagsSeq)-1])
+					if sa != nil && sb != nil {
+						stepFull = stepFull && canon(sa) == canon(sb)
+						stepDet = stepDet && canon(coarse(sa)) == canon(coarse(sb))
+					}
+					if !stepFull {
+						firstDiff = tr.M{"i": len(twinLines) - 1, "q": r.Q, "op": r.Op.Op, "kind": r.Kind, "det_same": stepDet}
+						if sa != nil && sb != nil {
+							if stepDet {
+								firstDiff["diff"] = diffSummary(sa, sb)
+							} else {
+								firstDiff["diff"] = diffSummary(tr.M{"st": coarse(sa), "flags": flagsConc[len(flagsConc)-1]}, tr.M{"st": coarse(sb), "flags": flagsSeq[len(flagsSeq)-1]})
+							}
+						}
+					}
+				}
 			}
 			if twinHang {
 				eq = tr.M{"checked": false, "twinhang": true}
 				diverged = true
 			} else {
 				ts, terr := twin.SafeState()
-				level := "full"
-				var a, b tr.M = end, ts
 				if terr != "" {
-					b = tr.M{"statepanic": terr}
+					ts = tr.M{"statepanic": terr}
 				}
-				if rd.Bulk && terr == "" {
-					level = "coarse"
-					a, b = coarse(end), coarse(ts)
+				// two projections: the full state, and its DETERMINED part (pods, containers, lifecycle states, resource
+				// requests; error/panic flags of the replies).  Which CPUs and memory nodes a container gets is not a function
+				// of the request order alone (tie-breaking follows map iteration order, sequentially too), so only a difference
+				// in the determined part can be a verdict; a bulk round (Synchronize) is compared on the determined part only.
+				level := "full"
+				fa, fb := canon(end), canon(ts)
+				da, db := canon(tr.M{"st": coarse(end), "flags": flagsConc}), canon(tr.M{"st": coarse(ts), "flags": flagsSeq})
+				sameFull := fa == fb && sameReplies && firstDiff == nil
+				sameDet := da == db
+				if firstDiff != nil && firstDiff["det_same"] == true {
+					// the runs parted on a choice the request order does not determine (which CPUs / memory nodes): whatever
+					// differs afterwards follows from that choice
+					sameDet = true
 				}
-				ca, cb := canon(a), canon(b)
-				same := ca == cb
-				if level == "coarse" {
-					sameReplies, firstReply = true, "" // which updates a bulk re-allocation sends depends on map order too
+				eq = tr.M{"checked": true, "level": level, "same_full": sameFull, "same_det": sameDet,
+					"h_conc": hash(fa), "h_seq": hash(fb), "hd_conc": hash(da), "hd_seq": hash(db)}
+				if firstDiff != nil {
+					eq["first_diff"] = firstDiff
 				}
-				eq = tr.M{"checked": true, "level": level, "same_state": same, "same_replies": sameReplies, "h_conc": hash(ca), "h_seq": hash(cb)}
-				if !same {
-					eq["diff"] = diffSummary(a, b)
-				}
-				if !sameReplies {
-					eq["reply_diff"] = firstReply
-				}
-				if !same || !sameReplies || x.control {
-					// determinism guard: a second, independent sequential replay of the whole serialized session must
-					// agree with the first one, otherwise the difference says nothing
-					ctl, cerr := l2.NewWorld(s.World, filepath.Join(dir, fmt.Sprintf("c%d", ri)), x.shared)
-					if cerr != nil {
-						eq["ctl"] = false
-						eq["ctlerr"] = cerr.Error()
-					} else {
-						for _, o := range history {
-							if _, err := ctl.Step(o, hidx, 0); err == l2.ErrHang {
-								break
-							}
-						}
-						cs, _ := ctl.SafeState()
-						var c tr.M = cs
-						if level == "coarse" && cs != nil {
-							c = coarse(cs)
-						}
-						eq["ctl"] = cs != nil && canon(c) == cb
-						eq["h_ctl"] = hash(canon(c))
-						ctl.Close()
-						os.RemoveAll(filepath.Join(dir, fmt.Sprintf("c%d", ri)))
+				if !sameDet {
+					eq["diff"] = diffSummary(tr.M{"st": coarse(end), "flags": flagsConc}, tr.M{"st": coarse(ts), "flags": flagsSeq})
+				} else if !sameFull {
+					eq["diff"] = diffSummary(end, ts)
+					if firstReply != "" {
+						eq["reply_diff"] = firstReply
 					}
 				}
+				if !sameDet || x.control {
+					// determinism guard: independent sequential replays of the whole serialized session must all agree with the
+					// first one on the determined part, and none of them may reproduce the concurrent outcome; otherwise the
+					// difference says nothing
+					agree, explained := true, false
+					hs := []string{}
+					for ci := 0; ci < nControls; ci++ {
+						cdir := filepath.Join(dir, fmt.Sprintf("c%d_%d", ri, ci))
+						ctl, cerr := l2.NewWorld(s.World, cdir, x.shared)
+						if cerr != nil {
+							agree = false
+							eq["ctlerr"] = cerr.Error()
+							break
+						}
+						fl := []interface{}{}
+						for _, o := range history {
+							line, err := ctl.Step(o, hidx, 0)
+							if err == l2.ErrHang {
+								break
+							}
+							fl = append(fl, []interface{}{line["err"], line["panic"], line["hasadj"]})
+						}
+						// the flags of this round's requests are the last len(order) entries
+						if len(fl) >= len(order) {
+							fl = fl[len(fl)-len(order):]
+						}
+						cs, _ := ctl.SafeState()
+						dc := "no-state"
+						if cs != nil {
+							dc = canon(tr.M{"st": coarse(cs), "flags": fl})
+						}
+						hs = append(hs, hash(dc))
+						if dc != db {
+							agree = false
+						}
+						if dc == da {
+							explained = true
+						}
+						ctl.Close()
+						os.RemoveAll(cdir)
+					}
+					eq["ctl_agree"], eq["ctl_explains"], eq["hd_ctl"], eq["nctl"] = agree, explained, hs, nControls
+				}
+				same := sameFull
 				if !same || rd.Bulk {
 					diverged = true
+				}
+				if (rd.Bulk || !sameFull) && x.l2out != nil {
+					// sequential baseline: the same session with this round replayed sequentially (history index + 1000000);
+					// an invariant that the sequential run breaks too is not a matter of concurrency
+					base := w.ResetLine(hidx + 1000000)
+					base["st"] = resetState
+					x.l2out.Emit(base)
+					kk := 0
+					for _, ln := range sessLines[:roundStart] {
+						c := tr.M{}
+						for a, b := range ln {
+							c[a] = b
+						}
+						c["h"], c["k"] = hidx+1000000, kk
+						x.l2out.Emit(c)
+						kk++
+					}
+					for _, ln := range twinLines {
+						ln["h"], ln["k"] = hidx+1000000, kk
+						x.l2out.Emit(ln)
+						kk++
+					}
 				}
 			}
 		}
@@ -513,8 +605,9 @@ func trimStacks(s string) string {
 }
 
 // Main: concdrv run --script sessions.json --out rounds.ndjson --l2out l2.ndjson --scratch dir [--from a --to b]
-//       concdrv rv --rounds n --out rv.ndjson --scratch dir --seed s
-//       concdrv --machines
+//
+//	concdrv rv --rounds n --out rv.ndjson --scratch dir --seed s
+//	concdrv --machines
 func Main(args []string) error {
 	if len(args) > 0 && args[0] == "--machines" {
 		return l2.Main(args)
